@@ -684,6 +684,8 @@ def specialise(expr, env):
     and/or, `is None` tests on values that are syntactically None / certainly not None are decided.  Returns a new AST."""
 
     def definitely_not_none(e):
+        if isinstance(e, ast.IfExp):
+            return definitely_not_none(e.body) and definitely_not_none(e.orelse)
         if isinstance(e, ast.Constant):
             return e.value is not None
         if isinstance(e, (ast.BinOp, ast.List, ast.Tuple, ast.Dict, ast.ListComp, ast.Compare, ast.JoinedStr)):
@@ -716,6 +718,21 @@ def specialise(expr, env):
                 return r_
             if isinstance(n.test, ast.Constant):
                 return n.body if n.test.value else n.orelse
+            return n
+
+        def visit_JoinedStr(self, n):
+            n = self.generic_visit(n)
+            # f"{'>='} x": a formatted constant (no conversion / format spec) is part of the literal text
+            out = []
+            for v in n.values:
+                if isinstance(v, ast.FormattedValue) and isinstance(v.value, ast.Constant) and isinstance(v.value.value, (str, int)) and not isinstance(v.value.value, bool) \
+                        and v.conversion == -1 and v.format_spec is None:
+                    v = ast.Constant(value=str(v.value.value))
+                if isinstance(v, ast.Constant) and out and isinstance(out[-1], ast.Constant):
+                    out[-1] = ast.Constant(value=str(out[-1].value) + str(v.value))
+                else:
+                    out.append(v)
+            n.values = out
             return n
 
         def visit_Call(self, n):
@@ -819,7 +836,7 @@ def emptiness(flow, node, container):
     'nonempty', 'empty' or None.  Understands len(x) > 0, len(x) != 0, len(x) >= 1, x (truthiness), not x, len(x) == 0."""
     verdict = None
     for a, t in facts_at(flow, node):
-        e = flow.expand(a, node)
+        e = uncopy_deep(flow.expand(a, node))          # a copy is empty exactly when the original is
         s = canon(e)
         if s == container or s == f"len({container})":
             verdict = "nonempty" if t else "empty"
@@ -985,5 +1002,5 @@ def uncopy_deep(e):
         def visit_Call(self, n):
             n = self.generic_visit(n)
             u = uncopy(n)
-            return u if u is not n and isinstance(u, (ast.Name, ast.Attribute, ast.Call, ast.Subscript)) else n
+            return u if u is not n and isinstance(u, (ast.Name, ast.Attribute, ast.Call, ast.Subscript, ast.ListComp, ast.List, ast.Tuple)) else n
     return U().visit(_c.deepcopy(e))
